@@ -70,6 +70,28 @@ pub fn handle(op: &str, req: &Value) -> Option<Value> {
                            else { chain.height() == hb && chain.tip_hash() == tb && chain.get_block_at(hb + 1).ok().flatten().is_none() };
             json!({"accepted": accepted, "expected": expect, "state_ok": state_ok, "error": r.err().map(|e| e.to_string()), "violates": accepted != expect || !state_ok})
         },
+        "merkle" => {
+            // a signed block carrying list1 is appended through the public API; its stored record is then replaced by the same
+            // header with list2 as transactions.  With validator keys registered verify_chain must refuse unless the lists agree.
+            let idxs = |k: &str| -> Vec<u64> { req[k].as_array().map(|a| a.iter().filter_map(Value::as_u64).collect()).unwrap_or_default() };
+            let (l1, l2) = (idxs("list1"), idxs("list2"));
+            let tx = |i: &u64| Transaction::Put { key: format!("m{i}"), data: vec![*i as u8] };
+            let (chain, graph, id) = setup(true, 0);
+            let mut bld = chain.new_block();
+            for i in &l1 {
+                bld = bld.add_transaction(tx(i));
+            }
+            let b = bld.sign_and_build(&id);
+            let appended = chain.append(b).is_ok();
+            let before = chain.verify_chain().is_ok();
+            let mut stored = chain.get_block_at(1).ok().flatten().unwrap();
+            stored.transactions = l2.iter().map(tx).collect();
+            restore(&graph, 1, &stored);
+            let read_back = chain.get_block_at(1).ok().flatten().map(|b| b.transactions.len());
+            let after = chain.verify_chain().is_ok();
+            json!({"appended": appended, "verify_before": before, "verify_after_alteration": after, "stored_transactions": read_back, "altered": l1 != l2,
+                   "violates": appended && before && l1 != l2 && after})
+        },
         _ => {
             let n = req["blocks"].as_u64().unwrap_or(1).min(4);
             let (chain, graph, _id) = setup(registry, n);
